@@ -88,15 +88,17 @@ def mentions_py(value, n):
 
 def mk_validator(n, one_arg=False):
     """`validator(value, port)`; with `one_arg` the deprecated but supported signature `validator(value)`"""
+    # a rejection is any message, the empty one included (`str(exc)` of a bare assert): "is not None" is what counts
+    msg = '' if n % 2 == 0 else 'rejected'
     if one_arg and n % 3 == 1:
         def validator(value, *, strict=True, **options):      # ONE positional parameter, the rest keyword-only: still the 1-arg form
-            return 'rejected' if mentions_py(value, n) else None
+            return msg if mentions_py(value, n) else None
     elif one_arg:
         def validator(value):
-            return 'rejected' if mentions_py(value, n) else None
+            return msg if mentions_py(value, n) else None
     else:
         def validator(value, port):
-            return 'rejected' if mentions_py(value, n) else None
+            return msg if mentions_py(value, n) else None
     validator.n = n
     return validator
 
